@@ -595,21 +595,39 @@ template <class T> void run_one(long idx, uint64_t seed) {
     if (!(WIFEXITED(st) && WEXITSTATUS(st) == 0))
       std::cout << "CRASH " << idx << ' ' << cls << " status=" << st << std::endl;
   }
-  // (iv) follow-up battery on the original and on the loaded object
-  bool bat = false, ans = false;
-  if (ok) {
-    try {
-      std::string b1 = battery(x, seed ^ 0xABCDEFULL);
-      std::string b2 = battery(y, seed ^ 0xABCDEFULL);
-      bat = (b1 == b2);
-      ans = b1.substr(0, b1.find("@@DUMP@@")) == b2.substr(0, b2.find("@@DUMP@@"));
-      objs << "B1\n" << b1.substr(b1.find("@@DUMP@@") + 9) << "\nENDD\nB2\n" << b2.substr(b2.find("@@DUMP@@") + 9) << "\nENDD\n";
-    } catch (const std::exception& e) { bat = false; }
+  // (iv) follow-up battery on the original and on the loaded object -- in a child process, because
+  // a loaded object that is not the object dumped may crash the library (markers BX / BY / BZ tell where)
+  std::cout.flush(); objs.flush();
+  pid_t bp = fork();
+  if (bp == 0) {
+    bool bat = false, ans = false;
+    if (ok) {
+      try {
+        std::cout << "BX " << idx << std::endl;
+        std::string b1 = battery(x, seed ^ 0xABCDEFULL);
+        std::cout << "BY " << idx << std::endl;
+        std::string b2 = battery(y, seed ^ 0xABCDEFULL);
+        std::cout << "BZ " << idx << std::endl;
+        bat = (b1 == b2);
+        ans = b1.substr(0, b1.find("@@DUMP@@")) == b2.substr(0, b2.find("@@DUMP@@"));
+        objs << "B1\n" << b1.substr(b1.find("@@DUMP@@") + 9) << "\nENDD\nB2\n" << b2.substr(b2.find("@@DUMP@@") + 9) << "\nENDD\n";
+      } catch (const std::exception& e) { bat = false; }
+    }
+    std::cout << "R " << idx << ' ' << cls << " load=" << ok << " same=" << (ok && d2 == d1) << " ok=" << inv << " okx=" << okx << " oky=" << oky
+              << " eq=" << eq << " answers=" << ans << " battery=" << bat << " bcrash=0 xflags=" << xflags
+              << " used_load=" << ok3 << " used_same=" << (ok3 && d3 == d1) << " tflags=" << tflags
+              << " ntok=" << tk.size() << " h=" << std::hash<std::string>()(d1) << std::endl;
+    objs.flush(); std::cout.flush();
+    _exit(0);
   }
-  std::cout << "R " << idx << ' ' << cls << " load=" << ok << " same=" << (ok && d2 == d1) << " ok=" << inv << " okx=" << okx << " oky=" << oky
-            << " eq=" << eq << " answers=" << ans << " battery=" << bat << " xflags=" << xflags
-            << " used_load=" << ok3 << " used_same=" << (ok3 && d3 == d1) << " tflags=" << tflags
-            << " ntok=" << tk.size() << " h=" << std::hash<std::string>()(d1) << std::endl;
+  int bst = 0;
+  if (bp > 0) waitpid(bp, &bst, 0);
+  if (bp <= 0 || !(WIFEXITED(bst) && WEXITSTATUS(bst) == 0)) {
+    std::cout << "R " << idx << ' ' << cls << " load=" << ok << " same=" << (ok && d2 == d1) << " ok=" << inv << " okx=" << okx << " oky=" << oky
+              << " eq=" << eq << " answers=0 battery=0 bcrash=1 xflags=" << xflags
+              << " used_load=" << ok3 << " used_same=" << (ok3 && d3 == d1) << " tflags=" << tflags
+              << " ntok=" << tk.size() << " h=" << std::hash<std::string>()(d1) << std::endl;
+  }
 }
 
 // replay of a status witness: an object of class `cls` whose status word is forced to `st`
